@@ -200,9 +200,13 @@ def apalache(ctx, module, args, name, timeout=300):
     d = ctx.sub("apalache-" + name)
     shutil.copy(os.path.join(SPEC, module + ".tla"), d)
     t = time.time()
+    e = dict(os.environ)
+    jt = os.path.join(d, "jtmp")
+    os.makedirs(jt, exist_ok=True)
+    e["TMPDIR"] = jt       # the launcher makes its java.io.tmpdir with mktemp -t (SANY's temporary directories)
     try:
         p = subprocess.run(["apalache-mc", "check", "--out-dir=" + os.path.join(d, "out")] + args + [module + ".tla"], cwd=d,
-                           stdout=subprocess.PIPE, stderr=subprocess.STDOUT, text=True, timeout=timeout)
+                           env=e, stdout=subprocess.PIPE, stderr=subprocess.STDOUT, text=True, timeout=timeout)
     except (OSError, subprocess.TimeoutExpired) as e:
         log("  Apalache %-28s unavailable (%s)" % (name, type(e).__name__))
         return "unavailable"
